@@ -3,24 +3,30 @@
 // Level "exploration": exhaustive enumeration of a finite matrix against the REAL in-process server
 // (server.ImmuServer with auth enabled, its real interceptor chain, reached through a bufconn listener).
 //
-// Alphabet (cells = method x request x role x database selection x session state x auth mechanism):
+// Alphabet (cell = method x request x role x database selection x session state x auth mechanism):
 //   - methods: every RPC found in the generated service descriptors of immudb.schema.ImmuService,
 //     immudb.model.DocumentService and immudb.model.AuthorizationService (unary and streaming); a new RPC is
-//     picked up automatically (request "zero", class "unclassified" => oracle (i) only).
+//     picked up automatically (request "zero", class "unclassified" => oracle (i) and the marker check only).
 //   - requests: the zero request of the method plus the hand written valid requests of variantsFor().
 //   - roles: none / r / rw / admin on database "dbown", and the sysadmin.
 //   - database selection: own (credentials on dbown, requests name dbown), other (credentials are requested
 //     for dbother — must be refused — then fall back to dbown; requests name dbother), system (the role is also
 //     granted on systemdb as far as the server lets the sysadmin do so; credentials on systemdb; requests
 //     name systemdb), none (token without UseDatabase / OpenSession without database).
-//   - session state: nocreds, bogus (unknown session id / malformed token), valid, expired (session: guard
-//     expiry after back-dating the last activity; token: expiry in the past), deactivated (SetActiveUser false
-//     after login), revoked (ChangePermission REVOKE after login), downgraded (GRANT R after login).
-//   - mechanism: session (OpenSession, "sessionid" header) and legacy token (Login+UseDatabase, "authorization").
+//   - session state: nocreds, bogus (unknown session id / malformed token), valid, expired (session: the real
+//     guard removes it after its last activity was back-dated; token: issued with an expiry in the past),
+//     deactivated (SetActiveUser false after login), revoked (ChangePermission REVOKE after login), downgraded
+//     (GRANT R after login).
+//   - mechanism: session (OpenSession, "sessionid" header), token (legacy Login+UseDatabase, "authorization"
+//     header), token2 (token while a second client of the same user is logged in as well).
+// Bound: quick = all methods and requests x {valid session of every role x selection, nocreds, bogus} plus a
+// 6 group sample of the other states; thorough = the full product (states that do not apply to a role are left out).
+// One server is shared by the groups that a worker runs one after the other (its start costs seconds); every group
+// brings its own users; a server is replaced after a breach that touched anything but dbown/dbother data.
 //
-// Oracle (independent of the server's permission tables, see expect()): before/after every call a snapshot of
-// EVERY database is taken by the sysadmin: tx state (CurrentState), settings, SQL tables, collections, plus the user
-// list and the set of database directories.
+// Oracle (independent of the server's permission tables, see mayChange / forbidden): before and after every call
+// the sysadmin takes a snapshot of EVERY database: tx state (CurrentState), settings, SQL tables, collections,
+// plus the user list and the set of database directories.
 //   (i)   a component may change only if the principal holds the required right on it (RW/admin/sysadmin for
 //         the content of a database, admin for settings/users/database list); never for an invalid session;
 //         systemdb never through data RPCs.
@@ -28,7 +34,7 @@
 //         any right / with an invalid session gets an error from every method that needs authentication.
 //   (iii) administrative methods fail for non-admins.
 //   (iv)  positive controls are counted (not demanded by the property): authorised calls succeed and change state.
-// Signature: acl-breach method=<full> role=<role> db=<sel> session=<state> effect=<...> auth=<mech> req=<variant>
+// Signature: acl-breach method=<full> role=<role> db=<sel> session=<state> effect=<...> auth=<mech> req=<request>
 package main
 
 import (
@@ -1162,6 +1168,8 @@ func runCell(e *env, m *method, v *variant) {
 	after := e.snapshot()
 	changed := diff(before, after)
 	cellCount.Add(1)
+	c.Add("cells_session_"+g.State, 1)
+	c.Add("cells_auth_"+g.Mech, 1)
 
 	var vs []verdict
 	var bad []string
@@ -1437,6 +1445,9 @@ func main() {
 	c.Set("methods_total", len(methods))
 	c.Set("methods_streaming", nStream)
 	c.Set("requests_total", nVariants)
+	if unclassified == nil {
+		unclassified = []string{}
+	}
 	c.Set("unclassified_methods", unclassified)
 	c.Assume("rights are judged from what the sysadmin granted: role on dbown (plus the same role on systemdb in the db=system slice when the server accepts that grant); nothing on dbother/defaultdb")
 	c.Assume("a response leaks data iff it contains the marker string stored only in a database the principal cannot read; metadata (database names, tx counts in ServerInfo, the caller's own user record) is not data")
@@ -1511,6 +1522,9 @@ func main() {
 	sort.Strings(failed)
 	c.Set("positive_controls_ok", okN)
 	c.Set("positive_controls_failed", failed)
+	c.Sample(map[string]any{"method": "/immudb.model.DocumentService/InsertDocuments", "request": "new", "group": "none/none/valid/token", "expect": "refused, no component changes"})
+	c.Sample(map[string]any{"method": "/immudb.schema.ImmuService/UnloadDatabase", "request": "loaded (names dbother)", "group": "admin/other/valid/session", "expect": "refused: admin of dbown only"})
+	c.Sample(map[string]any{"method": "/immudb.schema.ImmuService/streamSet", "request": "new-key", "group": "rw/own/deactivated/session", "expect": "refused: user deactivated after login"})
 	c.Sample(map[string]any{"cell": "method x request x role x db x session x auth", "example": "/immudb.schema.ImmuService/Set new-key by r/own/valid/session => must be refused, snapshot of all 4 databases unchanged"})
 	c.Finish("every method of the 3 public services x every request variant x every (role, database selection, session state, auth mechanism) group of the tier; "+
 		"snapshot of all databases + user list before/after each call; distinct = distinct (method, request, group, outcome)", !c.Expired())
